@@ -13,7 +13,7 @@ COQ_PROP_OK = "prop_ok"
 RULE = ("seeded configurations: time scale in {1/4,1/2,1,2,4}, interval and offset dyadic (offset sometimes >= interval), up to 25 ticks each with a loop overhead, a step "
         "duration chosen below / exactly at / above the interval (in system time), and a pause of random real length at the loop guard before some ticks (half of them the pause of a state save: the clock's state is exported in the middle). "
         "Step starts are taken from the library's clock and from the reference system time kept by the harness. "
-        "Every adjustor-level case ends with twelve steps on a raw clock that moves on every single read, each ending within a few such ticks of its deadline: pacing them must not raise (harness-side clause). Plus whole-system runs: launch() with a fixed-interval interaction under the deterministic scheduler, time scale 1/2, 1, 2 or 4 and dyadic durations; the step starts, step durations and loop overheads of the inference thread are read off the run and go through the same model and oracle. "
+        "Every adjustor-level case ends with twelve steps on a raw clock that moves on every single read, each ending within a few such ticks of its deadline: pacing them must not raise (harness-side clause). Plus whole-system runs: launch() with a fixed-interval interaction under the deterministic scheduler, time scale 1/2, 1, 2 or 4, dyadic durations, two thirds of them with pause / resume / save commands on the way; the step starts, step durations and loop overheads of the inference thread are read off the run and go through the same model and oracle. "
         "Non-trivial = contains a step shorter than, one longer than the interval, and a pause; distinct = canonical JSON.")
 TRUSTED = [
     "Coq 8.16.1 kernel incl. vm_compute",
@@ -63,7 +63,11 @@ def gen_sys(rng):
     return {"kind": "sys", "k": rng.choice([[1, 2], [1, 2], [2, 1], [4, 1], [1, 1]]), "interval": [int(interval * 1024), 1024], "offset": [0, 1],
             "spec": {"seed": rng.randrange(10**9), "step_dur": rng.choice([0, 1, 4, 40]) / 1024, "train_dur": 1 / 512, "hook_dur": 0, "pause_timeout": 1.0,
                      "attempts": 1, "queue_size": 1, "loop_delay": 1 / 1024, "chooser": rng.choice(["random", "pct"]), "pct_depth": 3, "max_events": 20000, "budget": 30.0,
-                     "fixed_interval": [interval, 0.0], "time_scale": None, "cmds": [["sleep", 0.5], ["shutdown", "retry"]]}}
+                     "fixed_interval": [interval, 0.0], "time_scale": None,
+                     # some runs are paused, resumed and saved on the way (dyadic instants): time spent paused does not count
+                     "cmds": rng.choice([[["sleep", 0.5]], [["sleep", 0.125], ["pause", "retry"], ["sleep", 0.25], ["resume", "retry"], ["sleep", 0.125]],
+                                         [["sleep", 0.0625], ["save", "retry"], ["sleep", 0.125], ["pause", "retry"], ["sleep", 0.0625], ["save", "retry"], ["sleep", 0.0625], ["resume", "retry"], ["sleep", 0.125]]])
+                             + [["shutdown", "retry"]]}}
 
 
 def gen(rng, tier):
@@ -112,7 +116,7 @@ def coq_expected(case, obs):
 
 def nontrivial(case, obs):
     if case.get("kind") == "sys":
-        return len(obs.get("starts") or []) >= 5 and case["k"] != [1, 1]
+        return len(obs.get("starts") or []) >= 5 and case["k"] != [1, 1] and obs.get("pauses", 0) > 0
     k = Fraction(*case["k"])
     W = Fraction(*case["interval"]) - Fraction(*case["offset"])
     short = any(k * (Fraction(*t["eps"]) + Fraction(*t["dur"])) < W for t in case["ticks"])
